@@ -4,6 +4,7 @@
 -/
 import SSJ.Gen.Loops3
 import SSJ.Proofs.GenLoops2
+import SSJ.Proofs.KeyEq
 
 namespace SSJ.Gen2
 open SSJ
@@ -50,9 +51,9 @@ theorem mask_loop {α : Type} (d : Row → Except PyErr Bool) (ch pre : List (Ro
       simp only [hsel]
       cases t <;> simp
 
-/-- `d[k]`: KeyError ↦ `PyErr.other` -/
-def dictLookup {κ ν : Type} [DecidableEq κ] (d : List (κ × ν)) (k : κ) : Except PyErr ν :=
-  match Dict.get? d k with
+/-- `d[k]` on a cell-keyed dict (lookup by Python equality): KeyError ↦ `PyErr.other` -/
+def dictLookup {ν : Type} (d : List (Cell × ν)) (k : Cell) : Except PyErr ν :=
+  match Dict.getPy? d k with
   | some v => pure v
   | none => throw PyErr.other
 
@@ -61,9 +62,9 @@ theorem filter_candset_split_eq (candCols lCols rCols : List String) (ch : List 
     filter_candset_split candCols lCols rCols (ch.map (·.1)) lRows rRows clk crk lk rk la ra fp
         (fun _ mask => selectMask ch mask)
       = ch.filterMapM (fun (p : Row × Cell) => do
-          let lRow ← match Dict.get? (buildDict lRows (lCols.idxOf lk)) (p.1.cell (candCols.idxOf clk)) with
+          let lRow ← match Dict.getPy? (buildDict lRows (lCols.idxOf lk)) (p.1.cell (candCols.idxOf clk)) with
             | some x => pure x | none => throw PyErr.other
-          let rRow ← match Dict.get? (buildDict rRows (rCols.idxOf rk)) (p.1.cell (candCols.idxOf crk)) with
+          let rRow ← match Dict.getPy? (buildDict rRows (rCols.idxOf rk)) (p.1.cell (candCols.idxOf crk)) with
             | some x => pure x | none => throw PyErr.other
           let drop ← fp (lRow.cell (lCols.idxOf la)) (rRow.cell (rCols.idxOf ra))
           pure (if !drop then some p else none)) := by
@@ -79,12 +80,12 @@ theorem filter_candset_split_eq (candCols lCols rCols : List String) (ch : List 
   refine Eq.trans ?_ (h.trans ?_)
   · congr 2
     funext cr acc
-    cases Dict.get? (buildDict lRows (List.idxOf lk lCols)) (cr.cell (List.idxOf clk candCols)) <;>
-      cases Dict.get? (buildDict rRows (List.idxOf rk rCols)) (cr.cell (List.idxOf crk candCols)) <;> rfl
+    cases Dict.getPy? (buildDict lRows (List.idxOf lk lCols)) (cr.cell (List.idxOf clk candCols)) <;>
+      cases Dict.getPy? (buildDict rRows (List.idxOf rk rCols)) (cr.cell (List.idxOf crk candCols)) <;> rfl
   congr 1
   funext p
-  cases Dict.get? (buildDict lRows (List.idxOf lk lCols)) (p.1.cell (List.idxOf clk candCols)) <;>
-    cases Dict.get? (buildDict rRows (List.idxOf rk rCols)) (p.1.cell (List.idxOf crk candCols)) <;> rfl
+  cases Dict.getPy? (buildDict lRows (List.idxOf lk lCols)) (p.1.cell (List.idxOf clk candCols)) <;>
+    cases Dict.getPy? (buildDict rRows (List.idxOf rk rCols)) (p.1.cell (List.idxOf crk candCols)) <;> rfl
 
 /-! ### `_apply_matcher_split` -/
 theorem loop_mapM {α β ε : Type} (step : α → Except ε (Option β)) (l : List α) (acc : List β) :
@@ -125,10 +126,10 @@ theorem apply_matcher_split_eq (a : MatcherArgs) (candCols lCols rCols : List St
     (cache : Option (List (Cell × List Tok) × List (Cell × List Tok)))
     (lout rout : Option (List String)) (lpre rpre : String)
     (hc : ∀ lc rc, cache = some (lc, rc) → tok.isSome →
-      (∀ k row, Dict.get? (buildDict lRows (lCols.idxOf lk)) k = some row →
-          (row.cell (lCols.idxOf la)).isMissing = false → (Dict.get? lc k).isSome) ∧
-      (∀ k row, Dict.get? (buildDict rRows (rCols.idxOf rk)) k = some row →
-          (row.cell (rCols.idxOf ra)).isMissing = false → (Dict.get? rc k).isSome)) :
+      (∀ k row, Dict.getPy? (buildDict lRows (lCols.idxOf lk)) k = some row →
+          (row.cell (lCols.idxOf la)).isMissing = false → (Dict.getPy? lc k).isSome) ∧
+      (∀ k row, Dict.getPy? (buildDict rRows (rCols.idxOf rk)) k = some row →
+          (row.cell (rCols.idxOf ra)).isMissing = false → (Dict.getPy? rc k).isSome)) :
     apply_matcher_split candCols lCols rCols chunk lRows rRows clk crk lk rk la ra tok sim a.threshold a.compOp
         a.allowMissing lout rout lpre rpre a.outSimScore (cache.map (·.1)) (cache.map (·.2))
       = (applyMatcherSplit a (candCols.idxOf clk) (candCols.idxOf crk) lRows rRows (lCols.idxOf lk) (lCols.idxOf la)
@@ -158,10 +159,10 @@ theorem apply_matcher_split_eq (a : MatcherArgs) (candCols lCols rCols : List St
       refine worker_except _ _ _ _ _ (by simp) ?_
     all_goals (
       intro cr s
-      cases Dict.get? lDict (cr.cell (List.idxOf clk candCols)) with
+      cases Dict.getPy? lDict (cr.cell (List.idxOf clk candCols)) with
       | none => rfl
       | some lRow =>
-        cases Dict.get? rDict (cr.cell (List.idxOf crk candCols)) with
+        cases Dict.getPy? rDict (cr.cell (List.idxOf crk candCols)) with
         | none => rfl
         | some rRow =>
           simp only [pure_bind, simArgCell, withScore, Bool.false_eq_true, if_false, if_true, Option.isSome_none,
@@ -176,10 +177,10 @@ theorem apply_matcher_split_eq (a : MatcherArgs) (candCols lCols rCols : List St
         refine worker_except _ _ _ _ _ (by simp) ?_
       all_goals (
         intro cr s
-        cases Dict.get? lDict (cr.cell (List.idxOf clk candCols)) with
+        cases Dict.getPy? lDict (cr.cell (List.idxOf clk candCols)) with
         | none => rfl
         | some lRow =>
-          cases Dict.get? rDict (cr.cell (List.idxOf crk candCols)) with
+          cases Dict.getPy? rDict (cr.cell (List.idxOf crk candCols)) with
           | none => rfl
           | some rRow =>
             simp only [pure_bind, simArgCell, withScore, Bool.false_eq_true, if_false, if_true,
@@ -198,10 +199,10 @@ theorem apply_matcher_split_eq (a : MatcherArgs) (candCols lCols rCols : List St
         refine worker_except _ _ _ _ _ (by simp) ?_
       all_goals (
         intro cr s
-        cases hL : Dict.get? lDict (cr.cell (List.idxOf clk candCols)) with
+        cases hL : Dict.getPy? lDict (cr.cell (List.idxOf clk candCols)) with
         | none => rfl
         | some lRow =>
-          cases hR : Dict.get? rDict (cr.cell (List.idxOf crk candCols)) with
+          cases hR : Dict.getPy? rDict (cr.cell (List.idxOf crk candCols)) with
           | none => rfl
           | some rRow =>
             simp only [pure_bind, simArgCell, withScore, Bool.false_eq_true, if_false, if_true,
@@ -213,63 +214,30 @@ theorem apply_matcher_split_eq (a : MatcherArgs) (candCols lCols rCols : List St
               simp only [Bool.or_eq_true, not_or, Bool.not_eq_true] at hm
               obtain ⟨lt, hlt⟩ := Option.isSome_iff_exists.mp (hcl _ _ hL hm.1)
               obtain ⟨rt, hrt⟩ := Option.isSome_iff_exists.mp (hcr _ _ hR hm.2)
-              simp only [hlt, hrt, Dict.getD, Option.getD_some, pure_bind]
+              simp only [hlt, hrt, Dict.getPyD, Option.getD_some, pure_bind]
               split_ifs <;> rfl)
 
 /-! the hypothesis of `apply_matcher_split_eq` holds for the cache that `apply_matcher` builds (`tokenCache`) -/
-theorem get?_buildDict_mem (rows : List Row) (ki : Nat) (k : Cell) (row : Row) (d : List (Cell × Row))
-    (h : Dict.get? (rows.foldl (fun d r => Dict.set d (r.cell ki) r) d) k = some row) :
-    (row ∈ rows ∧ row.cell ki = k) ∨ Dict.get? d k = some row := by
-  induction rows generalizing d with
-  | nil => exact Or.inr h
-  | cons r rs ih =>
-    rw [List.foldl_cons] at h
-    rcases ih _ h with ⟨hm, hk⟩ | h'
-    · exact Or.inl ⟨List.mem_cons_of_mem _ hm, hk⟩
-    · by_cases hr : r.cell ki = k
-      · rw [hr, Dict.get?_set_self] at h'
-        cases h'
-        exact Or.inl ⟨List.mem_cons_self, hr⟩
-      · rw [Dict.get?_set_other _ _ _ _ hr] at h'
-        exact Or.inr h'
-
-theorem isSome_foldl_set {α ν : Type} (f : α → Cell) (g : α → ν) (l : List α) (k : Cell) (d : List (Cell × ν))
-    (h : (Dict.get? d k).isSome ∨ ∃ r ∈ l, f r = k) :
-    (Dict.get? (l.foldl (fun d r => Dict.set d (f r) (g r)) d) k).isSome := by
-  induction l generalizing d with
-  | nil => rcases h with h | ⟨r, hr, _⟩
-           · exact h
-           · cases hr
-  | cons x xs ih =>
-    rw [List.foldl_cons]
-    apply ih
-    rcases h with h | ⟨r, hr, hk⟩
-    · left
-      by_cases hx : f x = k
-      · rw [hx, Dict.get?_set_self]; rfl
-      · rw [Dict.get?_set_other _ _ _ _ hx]; exact h
-    · rcases List.mem_cons.mp hr with rfl | hr'
-      · left; rw [hk, Dict.get?_set_self]; rfl
-      · exact Or.inr ⟨r, hr', hk⟩
-
 theorem generateTokens_isSome (rows : List Row) (ki ai : Nat) (tk : String → List Tok) (k : Cell) (row : Row)
-    (h : Dict.get? (buildDict rows ki) k = some row) (hm : (row.cell ai).isMissing = false) :
-    (Dict.get? (generateTokens rows ki ai tk) k).isSome := by
-  unfold buildDict at h
-  rcases get?_buildDict_mem rows ki k row [] h with ⟨hmem, hk⟩ | h'
-  · unfold generateTokens
-    apply isSome_foldl_set
-    right
-    exact ⟨row, List.mem_filter.mpr ⟨hmem, by simp [hm]⟩, hk⟩
-  · simp [Dict.get?] at h'
+    (h : Dict.getPy? (buildDict rows ki) k = some row) (hm : (row.cell ai).isMissing = false) :
+    (Dict.getPy? (generateTokens rows ki ai tk) k).isSome := by
+  have hrow : row ∈ rows ∧ (row.cell ki).pyEq k = true := by
+    rcases getPy?_foldl_setPy_some (fun r : Row => r.cell ki) (fun r => r) rows [] k row h with ⟨a, ha, hk, hv⟩ | h'
+    · cases hv; exact ⟨ha, hk⟩
+    · cases h'
+  obtain ⟨hmem, hk⟩ := hrow
+  unfold generateTokens
+  apply getPy?_foldl_setPy_isSome
+  right
+  exact ⟨row, List.mem_filter.mpr ⟨hmem, by simp [hm]⟩, hk⟩
 
 theorem tokenCache_keys (tk : String → List Tok) (useCache : Bool) (lRows rRows : List Row)
     (lki lai rki rai : Nat) (lc rc : List (Cell × List Tok))
     (h : tokenCache (some tk) useCache lRows rRows lki lai rki rai = .ok (some (lc, rc))) :
-    (∀ k row, Dict.get? (buildDict lRows lki) k = some row → (row.cell lai).isMissing = false →
-        (Dict.get? lc k).isSome) ∧
-    (∀ k row, Dict.get? (buildDict rRows rki) k = some row → (row.cell rai).isMissing = false →
-        (Dict.get? rc k).isSome) := by
+    (∀ k row, Dict.getPy? (buildDict lRows lki) k = some row → (row.cell lai).isMissing = false →
+        (Dict.getPy? lc k).isSome) ∧
+    (∀ k row, Dict.getPy? (buildDict rRows rki) k = some row → (row.cell rai).isMissing = false →
+        (Dict.getPy? rc k).isSome) := by
   unfold tokenCache at h
   simp only at h
   split at h
